@@ -7,12 +7,14 @@ import (
 	"fmt"
 	"io"
 	"net/http"
+	"reflect"
 	"strconv"
 	"strings"
 	"sync"
 	"sync/atomic"
 	"testing"
 	"time"
+	"unsafe"
 
 	"github.com/megaease/easegress/pkg/context"
 	"github.com/megaease/easegress/pkg/filters"
@@ -147,6 +149,77 @@ const vfC08ProxyRetryYAML = vfC08ProxyYAML + `  retryPolicy: rt
 
 const vfC08MaxAttempts = 2
 
+// results of the Proxy filter as documented in doc/reference/filters.md (user-visible strings)
+const (
+	vfC08ResShortCircuited = "shortCircuited"
+	vfC08ResFailureCode    = "failureCode"
+	vfC08ResServerError    = "serverError"
+	vfC08ResClientError    = "clientError"
+)
+
+type vfC08Stater interface{ State() libcb.State }
+
+// vfC08FindStater walks the filter instance (pointers, structs, interfaces, slices; exported or not;
+// depth-limited, field order) and returns the first value that offers State() libcb.State: the
+// breaker wrapper of the only pool. nil when nothing is found (the harness then falls back).
+func vfC08FindStater(root interface{}) (found vfC08Stater) {
+	defer func() {
+		if recover() != nil {
+			found = nil
+		}
+	}()
+	seen := map[uintptr]bool{}
+	var walk func(v reflect.Value, depth int) vfC08Stater
+	try := func(v reflect.Value) vfC08Stater {
+		if !v.CanAddr() {
+			return nil
+		}
+		x := reflect.NewAt(v.Type(), unsafe.Pointer(v.UnsafeAddr())).Elem().Interface()
+		if s, ok := x.(vfC08Stater); ok && s != nil {
+			return s
+		}
+		return nil
+	}
+	walk = func(v reflect.Value, depth int) vfC08Stater {
+		if depth > 5 || !v.IsValid() {
+			return nil
+		}
+		switch v.Kind() {
+		case reflect.Ptr:
+			if v.IsNil() || seen[v.Pointer()] {
+				return nil
+			}
+			seen[v.Pointer()] = true
+			return walk(v.Elem(), depth+1)
+		case reflect.Interface:
+			if v.IsNil() {
+				return nil
+			}
+			if s := try(v); s != nil {
+				return s
+			}
+			if e := v.Elem(); e.Kind() == reflect.Ptr {
+				return walk(e, depth+1)
+			}
+			return nil
+		case reflect.Struct:
+			for i := 0; i < v.NumField(); i++ {
+				if s := walk(v.Field(i), depth+1); s != nil {
+					return s
+				}
+			}
+		case reflect.Slice:
+			for i := 0; i < v.Len() && i < 8; i++ {
+				if s := walk(v.Index(i), depth+1); s != nil {
+					return s
+				}
+			}
+		}
+		return nil
+	}
+	return walk(reflect.ValueOf(root), 0)
+}
+
 // TestVerifC08Proxy: a Proxy whose pool uses a generated CircuitBreaker policy (with or without a
 // retry policy next to it), transport stubbed. Requests carry a buffered or a stream payload (built
 // the way the HTTP server does: FetchPayload(0) / FetchPayload(-1)). Requests are started (the stub blocks until released), answered with 200 / failure code 500 /
@@ -157,9 +230,7 @@ const vfC08MaxAttempts = 2
 func TestVerifC08Proxy(t *testing.T) {
 	vf := vfBegin(t, "C08")
 	defer vf.End()
-	saved := fnSendRequest
-	fnSendRequest = vfC08Send
-	defer func() { fnSendRequest = saved }()
+	defer vfC08SetTransport(vfC08Send)() // c08_proxy_hook_test.go: the only file naming the transport hook
 
 	rapid.Check(t, func(rt *rapid.T) {
 		p := &c08model.Policy{SlowDur: int64(time.Hour), SlowThr: 100}
@@ -211,13 +282,29 @@ func TestVerifC08Proxy(t *testing.T) {
 		if err != nil {
 			rt.Fatalf("VF-INCONCLUSIVE proxy spec rejected: %v", err)
 		}
-		px := kind.CreateInstance(spec).(*Proxy)
+		pk := filters.GetKind("Proxy")
+		if pk == nil {
+			rt.Fatalf("VF-INCONCLUSIVE filter kind Proxy is not registered")
+		}
+		px := pk.CreateInstance(spec)
 		px.Init()
 		defer px.Close()
-		px.InjectResiliencePolicy(policies)
-		stater, ok := px.mainPool.circuitBreakerWrapper.(interface{ State() libcb.State })
+		rs, ok := px.(filters.Resiliencer)
 		if !ok {
-			rt.Fatalf("VF-INCONCLUSIVE cannot read the breaker state from %T", px.mainPool.circuitBreakerWrapper)
+			rt.Fatalf("VF-INCONCLUSIVE the Proxy filter is no filters.Resiliencer")
+		}
+		rs.InjectResiliencePolicy(policies)
+		// the breaker's state: found by type at run time (any field below the filter that offers the
+		// exported State() of the breaker); without it only the admission decisions are compared
+		stater := vfC08FindStater(px)
+		if stater == nil {
+			vf.Class("probe-unavailable:breaker-state (proxy: permit bits only)")
+		}
+		readState := func() string {
+			if stater == nil {
+				return ""
+			}
+			return vfC08StateName(stater.State())
 		}
 
 		tr := c08model.NewTracker(p, start)
@@ -289,7 +376,7 @@ func TestVerifC08Proxy(t *testing.T) {
 			before := tr.States()
 			select {
 			case <-fl.enter:
-				got := vfC08StateName(stater.State())
+				got := readState()
 				log("%s request #%d (context cancelled=%v) -> reached the transport; breaker %s", fl.kind(), fl.id, fl.cancelled, got)
 				if ok, want := tr.ObserveAcquire(fl.id, vfC08Now(), true, got); !ok {
 					outstanding = append(outstanding, fl)
@@ -303,14 +390,14 @@ func TestVerifC08Proxy(t *testing.T) {
 				return fl, true
 			case d := <-fl.done:
 				cancel()
-				got := vfC08StateName(stater.State())
+				got := readState()
 				calls := atomic.LoadInt64(&vfC08TransportCalls) - callsBefore
 				log("%s request #%d -> result=%q status=%d transportCalls=%d panicked=%v; breaker %s", fl.kind(), fl.id, d.result, d.status, calls, d.panicked, got)
 				if d.panicked {
 					report("proxy: panic without reaching the transport", "Handle panicked: %v", d.panicVal)
 					return nil, false
 				}
-				if d.result != resultShortCircuited {
+				if d.result != vfC08ResShortCircuited {
 					report(fmt.Sprintf("proxy: request neither forwarded nor short-circuited: result=%q", d.result),
 						"Handle returned result %q status %d without contacting a server", d.result, d.status)
 					return nil, false
@@ -358,7 +445,7 @@ func TestVerifC08Proxy(t *testing.T) {
 				}
 			}
 			fl.cancel()
-			got := vfC08StateName(stater.State())
+			got := readState()
 			calls := atomic.LoadInt64(&vfC08TransportCalls) - callsBefore
 			log("answer #%d (%s, context cancelled=%v) last=%s attempts=%d -> result=%q status=%d; breaker %s", fl.id, fl.kind(), fl.cancelled, last.kind, attempts, d.result, d.status, got)
 			if attempts > 1 {
@@ -367,15 +454,15 @@ func TestVerifC08Proxy(t *testing.T) {
 			wantResult, wantStatus := "", 200
 			switch last.kind {
 			case "code500":
-				wantResult, wantStatus = resultFailureCode, 500
+				wantResult, wantStatus = vfC08ResFailureCode, 500
 			case "neterr":
-				wantResult, wantStatus = resultServerError, 503
+				wantResult, wantStatus = vfC08ResServerError, 503
 			}
 			if fl.cancelled {
 				cancelledFinished++
-				if last.kind == "neterr" && d.result == resultClientError && d.status == 499 {
+				if last.kind == "neterr" && d.result == vfC08ResClientError && d.status == 499 {
 					// a send error on a cancelled request may be blamed on the client (not C08's business)
-					wantResult, wantStatus = resultClientError, 499
+					wantResult, wantStatus = vfC08ResClientError, 499
 				}
 			}
 			if d.panicked || d.result != wantResult || d.status != wantStatus || calls != int64(attempts-1) {
